@@ -228,6 +228,15 @@ class PassiveT(CtlT):
 
 
 class FakeArray:
+    def __iter__(self):
+        return iter([0, 0, 0, 0])
+
+    def __getitem__(self, i):
+        return [0, 0, 0, 0][i]
+
+    def __setitem__(self, i, v):
+        pass
+
     def __init__(self, *a):
         self._l = PassiveT("cell-array")  # never blocks for real: every wait must go through a gate
 
@@ -478,13 +487,22 @@ def load_urwid_source():
         URWID_CODE = compile(open(URWID_FILE).read(), URWID_FILE, "exec")
 
 
+class StartError(Exception):
+    """what the stand-in for the original Process.start() raises on command"""
+
+
 def fake_start(procobj, *a, **k):
     th = tl.th
     if th.aborting:
         return
     sch = th.sch
     while True:
-        th.gate(("adv",))
+        cmd = th.gate(("adv", "fail"))
+        if cmd[0] == "fail":
+            # the original Process.start() raises (e.g. the target cannot be pickled)
+            th.event = "fail"
+            th.in_start = False
+            raise StartError("start failed")
         c = procobj._child_id
         if c in sch.vprocs:
             th.event = "x"
@@ -701,7 +719,11 @@ class Th(threading.Thread):
                     po = multiprocessing.Process(target=noop)
                     po._child_id = cmd[1]
                     self.procobj = po
-                    vp.mod._process_start_wrapper(po)
+                    try:
+                        vp.mod._process_start_wrapper(po)
+                    except StartError:
+                        pass   # the caller handles the failed start; the thread lives on
+                    self.in_start = False
         except Abort:
             pass
         except BaseException as e:  # noqa: BLE001
@@ -827,7 +849,7 @@ class Sched:
         th = self.threads[t]
         if th.error:
             return "dead"
-        th.cmd = {"c": ("call",), "a": ("adv",), "w": ("wr",), "d": ("rd",), "e": ("exc",),
+        th.cmd = {"c": ("call",), "a": ("adv",), "w": ("wr",), "d": ("rd",), "e": ("exc",), "f": ("fail",),
                   "s": ("start", st[2] if len(st) > 2 else 0)}[st[0]]
         th.sem.release()
         self.wait()
@@ -935,11 +957,20 @@ class Sched:
                     opts.append((f"a{t}", ["a", t], True))
             else:
                 a = acc[0]
-                letter = {"call": "c", "adv": "a", "wr": "w", "rd": "d"}[a]
+                if "fail" in acc and th.procobj._child_id not in self.vprocs and rng.random() < cfg.get("p_fail", 0.1):
+                    a = "fail"
+                letter = {"call": "c", "adv": "a", "wr": "w", "rd": "d", "fail": "f"}[a]
                 blocked = False
                 if th.wait_lock is not None and th.wait_lock.owner not in (None, th.tid):
                     blocked = True
                 if a == "rd" and not self.repl:
+                    blocked = True
+                if a == "adv" and "fail" in acc and th.procobj._child_id in self.vprocs:
+                    blocked = True
+                if "fail" in acc and cfg.get("hold_fk") and not any(d > 0 for d in self.depth.values()) \
+                        and rng.random() < 0.9:
+                    # let the original start() "take its time": other threads get the chance to enter
+                    # synchronized functions between the hand-over and the outcome of the start
                     blocked = True
                 opts.append((f"{letter}{t}", [letter, t], blocked))
             if opts:
@@ -973,7 +1004,11 @@ class Sched:
                 if stuck and rng.random() < p_bad:
                     o = rng.choice(stuck)
                 elif free:
-                    t = last if last in free and rng.random() < stick else rng.choice(sorted(free))
+                    lead = (cfg or {}).get("lead")
+                    if lead is not None and len(toks) < 8 and lead in free:
+                        t = lead      # the leading thread first (e.g. up to the outcome of its start)
+                    else:
+                        t = last if last in free and rng.random() < stick else rng.choice(sorted(free))
                     o = rng.choice(free[t])
                 else:
                     break
